@@ -579,4 +579,51 @@ theorem weight_le_pow (c : TreeCfg) (r : Nat) : c.weight r ≤ (c.k + 1) ^ r := 
     have := Nat.mul_le_mul_left c.k ih
     omega
 
+/-! ### DNSSEC: nested local counters -/
+
+theorem tryCands_spec (c : SigCaps) (hit : Option Nat) (rem i used spent : Nat) :
+    let r := tryCands true c hit rem i used spent
+    used ≤ r.1 ∧ r.1 - used ≤ c.cand - i ∧ r.1 - used ≤ rem ∧ (used ≤ c.rrset → r.1 ≤ c.rrset) ∧
+    r.2.1 = spent + (r.1 - used) ∧ (spent ≤ c.budget → r.2.1 ≤ c.budget) := by
+  induction rem generalizing i used spent with
+  | zero => simp [tryCands]
+  | succ n ih =>
+    simp only [tryCands]
+    by_cases h1 : c.cand ≤ i
+    · simp [h1]
+    · by_cases h2 : c.rrset ≤ used
+      · simp [h1, h2]
+      · by_cases h3 : c.budget ≤ spent
+        · simp [h1, h2, h3]
+        · by_cases h4 : hit = some i
+          · simp only [h1, h2, h3, h4, decide_false, Bool.and_false, Bool.false_eq_true, if_false, if_true]
+            omega
+          · simp only [h1, h2, h3, h4, decide_false, Bool.and_false, Bool.false_eq_true, if_false]
+            have := ih (i + 1) (used + 1) (spent + 1)
+            simp only at this
+            omega
+
+theorem verifyRRset_spec (c : SigCaps) (sigs : List (Nat × Option Nat)) (used spent : Nat) :
+    let r := verifyRRset true c sigs used spent
+    used ≤ r.1 ∧ (used ≤ c.rrset → r.1 ≤ c.rrset) ∧ r.2.1 = spent + (r.1 - used) ∧
+    (spent ≤ c.budget → r.2.1 ≤ c.budget) := by
+  induction sigs generalizing used spent with
+  | nil => simp [verifyRRset]
+  | cons x t ih =>
+    obtain ⟨k, hit⟩ := x
+    simp only [verifyRRset]
+    have h := tryCands_spec c hit k 0 used spent
+    simp only at h
+    generalize tryCands true c hit k 0 used spent = r at h
+    obtain ⟨u, s, o⟩ := r
+    simp only at h
+    cases o with
+    | failed =>
+      simp only
+      have := ih u s
+      simp only at this
+      omega
+    | verified => simp only; omega
+    | work kk => simp only; omega
+
 end SdnsVerif.Lemmas.Work
